@@ -93,6 +93,13 @@ let parse_config () : config =
     c_purge_readonly = pr; c_is_child = false; c_is_normalized = false; c_root_doc = VNone;
     c_rules_reg = rr; c_schema_reg = sr }
 
+(* which fact record: c = extracted from the current source, d = documented *)
+let parse_facts () : facts =
+  match next () with
+  | "c" -> current
+  | "d" -> documented
+  | t -> failwith ("bad facts selector " ^ t)
+
 (* ---------- JSON output ---------- *)
 let buf = Buffer.create 65536
 let add = Buffer.add_string buf
@@ -172,12 +179,13 @@ let run_line (line : string) =
   (try
     (match next () with
      | "V" ->   (* validate(document, update=u, normalize=False) on a fresh validator *)
+         let facts = parse_facts () in
          let cfg = parse_config () in
          let schema = dict_of (parse_value ()) in
          let doc = dict_of (parse_value ()) in
          let update = next_bool () in
          let x = { x_cfg = cfg; x_schema = schema; x_doc = doc; x_dp = []; x_sp = []; x_update = update } in
-         out_res (fun errs -> add "\"errors\":"; out_errors errs) (validate_ctx current fuel x)
+         out_res (fun errs -> add "\"errors\":"; out_errors errs) (validate_ctx facts fuel x)
      | "T" ->   (* build both trees from an error forest *)
          let n = next_int () in
          let errs = rep n parse_error in
